@@ -10,6 +10,7 @@ mod engine;
 mod findings;
 mod gen;
 mod lexer;
+mod ppm;
 mod props;
 mod sv;
 mod tape;
